@@ -1633,7 +1633,6 @@ func (dsc *dataStoreCommand) lmpop(keyNames []string, left bool, count int) (out
 	defer dsc.unlock()
 
 	var result []any
-	elements := make([]any, 0, count)
 
 	for _, keyName := range keyNames {
 		list, err := dsc.getListUnlocked(keyName)
@@ -1643,6 +1642,11 @@ func (dsc *dataStoreCommand) lmpop(keyNames []string, left bool, count int) (out
 		}
 
 		if list != nil && list.count > 0 {
+			// never more than the list holds (the count comes from the client)
+			if count > list.count {
+				count = list.count
+			}
+			elements := make([]any, 0, count)
 			if left {
 				for {
 					item := list.head
